@@ -351,6 +351,11 @@ def forced_part(ctx, ws):
             fails = fails + judge_probes(probes, o)
         for kind, what in fails:
             sig, gen = SIGS[kind]
+            # a recorded finding is a mechanism the MODEL reproduces (its Lean witnesses); a failing run whose answers the
+            # model does not predict is something else, whatever it looks like — it gets its own signature and is reported
+            if not same(a, m):
+                sig += ":not-predicted-by-the-model"
+                gen = "(the model of the recorded mechanisms predicts a correct answer here) " + gen
             ctx.oracle_fail(sig, gen + " — " + what, {"mode": "conc", "case": line, "implementation": a, "model": m})
         if not same(a, m):
             bad += 1
